@@ -172,6 +172,18 @@ def run(chk, replay=None):
         raise Machinery("model is insensitive: deviations InPlaceWrite/UncheckedLoad do not violate the invariants")
     chk.part("deviation_sensitivity", violated=res_dev.violated, states=res_dev.distinct)
 
+    # 1c. unbounded in the length of the history: an inductive invariant of the design (Apalache), thorough tier
+    if tier == "thorough":
+        obligations = [("Init", "IndInv", 0, "base: Init => IndInv"), ("IndInit", "IndInv", 1, "step: IndInv /\\ Next => IndInv'"),
+                       ("IndInit", "Props", 0, "IndInv => ReturnsDoit /\\ NeverRaises /\\ KeyFilesComplete")]
+        done = []
+        for init, inv, length, what in obligations:
+            ok, tail = tlc.apalache("CacheFS_Apa", init=init, inv=inv, length=length)
+            if not ok:
+                raise Machinery(f"inductive invariant of CacheFS not established ({what}): {tail[-600:]}")
+            done.append(what)
+        chk.part("apalache_inductive_invariant", obligations=len(obligations), discharged=len(done), what=done,
+                 instance="2 processes, 3 expressions (one key collision), 4 inodes, any number of calls and crashes")
     # 2. schedules from the specification (spec -> code)
     nsim = 400 if tier == "thorough" else 60
     behs = tlc.simulate("CacheFS_MC", MC_CFG.format(calls=5, crashes=2, dev="DevNone", invs=""), num=nsim, depth=45, seed=chk.seed + 1)
